@@ -51,8 +51,8 @@ impl Property for C08 {
     }
     fn config(&self, tier: Tier) -> PropConfig {
         match tier {
-            Tier::Quick => PropConfig { cases: 20_000, max_tape: 400, shards: 8 },
-            Tier::Thorough => PropConfig { cases: 500_000, max_tape: 600, shards: 16 },
+            Tier::Quick => PropConfig { cases: 150000, max_tape: 400, shards: 12 },
+            Tier::Thorough => PropConfig { cases: 2400000, max_tape: 600, shards: 16 },
         }
     }
     fn run_case(&self, reg: &Registry, shape: usize, tape: &[u8], st: &mut Stats) -> CaseResult {
